@@ -1,6 +1,8 @@
 package xlate
 
 import (
+	"fmt"
+	"os"
 	"runtime"
 	"sync"
 
@@ -24,13 +26,26 @@ var AllOptions = cyq.Options{Parameters: true, ShortestPaths: true, Updating: tr
 // Items returns the enumeration with at most k features (all families) followed by every corpus query.
 func Items(k int) []Item {
 	var out []Item
-	for _, q := range cyq.EnumerateWith(k, AllOptions) {
+	opt := AllOptions
+	opt.SkipParseCheck = true // every consumer parses each text through ParseItem
+	for _, q := range cyq.EnumerateWith(k, opt) {
 		out = append(out, Item{Text: q.Text, Source: "enum", Features: q.Features})
 	}
 	for _, c := range cyq.Corpus() {
 		out = append(out, Item{Text: c.Text, Params: c.Params, Source: c.Source})
 	}
 	return out
+}
+
+// ParseItem parses an item's text; a rejected *enumerated* text is a bug of the enumerator (machinery failure), a
+// rejected corpus text is an ordinary outcome (the corpora contain parser-negative cases).
+func ParseItem(it Item) (*cypher.RegularQuery, error) {
+	q, err := cyq.Parse(it.Text)
+	if err != nil && it.Source == "enum" {
+		fmt.Fprintf(os.Stderr, "MACHINERY-FAILURE: enumerated text rejected by the parser: %q (features %v): %v\n", it.Text, it.Features, err)
+		os.Exit(2)
+	}
+	return q, err
 }
 
 // Parallel runs f(i) for i in [0,n) on all CPUs; f must be safe for concurrent use. worker is the goroutine index.
